@@ -2,7 +2,7 @@
    when poling is off)" on the L4 model: the list of non-finite fields is empty under the oracle contracts
    [geometry_defined] (idler angle and waist position defined) and "delta k of the unpoled crystal is not exactly 0". *)
 From Coq Require Import String List Bool ZArith QArith.
-From SpdVerif Require Import Base.NumOps Spec.ConfigSpec Gen.ConfigTables Model.ConfigTypes Model.Config.
+From SpdVerif Require Import Base.CfgNumOps Spec.ConfigSpec Gen.ConfigTables Model.ConfigTypes Model.Config.
 Import ListNotations.
 
 Section Finite.
